@@ -318,6 +318,36 @@ class Inliner:
         return e
 
     @staticmethod
+    def _expand_partials(host: ast.FunctionDef, resolve) -> bool:
+        """`f = partial(helper, a, k=v)` with f used only as a callee: every `f(x)` becomes `helper(a, x, k=v)` and the binding goes."""
+        changed = False
+        for s in list(host.body):
+            if not (isinstance(s, ast.Assign) and len(s.targets) == 1 and isinstance(s.targets[0], ast.Name) and isinstance(s.value, ast.Call)
+                    and ast.unparse(s.value.func) in ("partial", "functools.partial") and s.value.args and isinstance(s.value.args[0], ast.Name)):
+                continue
+            probe = ast.Call(func=s.value.args[0], args=[], keywords=[])
+            if resolve(probe)[0] is None:
+                continue
+            name = s.targets[0].id
+            uses = [n for n in ast.walk(host) if isinstance(n, ast.Name) and n.id == name]
+            calls = [c for c in ast.walk(host) if isinstance(c, ast.Call) and isinstance(c.func, ast.Name) and c.func.id == name]
+            if len(uses) != len(calls) + 1 or not calls or any(isinstance(a, ast.Starred) for a in s.value.args):
+                continue
+            pre_args, pre_kw = s.value.args[1:], s.value.keywords
+            if not all(_is_simple(a) for a in pre_args) or not all(_is_simple(k.value) for k in pre_kw):
+                continue
+            for c in calls:
+                c.func = ast.copy_location(ast.Name(id=s.value.args[0].id, ctx=ast.Load()), c.func)
+                c.args = [copy.deepcopy(a) for a in pre_args] + c.args
+                given = {k.arg for k in c.keywords}
+                c.keywords = [copy.deepcopy(k) for k in pre_kw if k.arg not in given] + c.keywords
+            host.body.remove(s)
+            changed = True
+        if changed:
+            ast.fix_missing_locations(host)
+        return changed
+
+    @staticmethod
     def _ifexp_to_if(s: ast.stmt, resolve) -> list[ast.stmt]:
         """`x = helper(..) if c else e`: the conditional expression becomes an if statement so that the helper can be inlined."""
         if not (isinstance(s, ast.Assign) and isinstance(s.value, ast.IfExp)):
@@ -473,6 +503,8 @@ class Inliner:
                 out.append(s)
             return out
 
+        if self._expand_partials(host, resolve):
+            changed = True
         host.body = do_block(host.body)
 
         # expression level
